@@ -639,7 +639,10 @@ class ApertureFamily:
                  'do_photometry', 'area_overlap', 'positions_readback',
                  'do_photometry_masked', 'area_overlap_masked',
                  'area_overlap_masked', 'do_photometry_center',
-                 'area_overlap_subpixel_masked']
+                 'area_overlap_subpixel_masked',
+                 # the same aperture on another, smaller frame
+                 'do_photometry_small', 'area_overlap_small',
+                 'to_mask_cutout_small']
         return {'op': 'read', 'what': rng.pick(reads)}
 
     @staticmethod
@@ -656,6 +659,14 @@ class ApertureFamily:
             if isinstance(out, list):
                 return [(np.asarray(x.data), plain(x.bbox)) for x in out]
             return (np.asarray(out.data), plain(out.bbox))
+        if what == 'to_mask_cutout_small':
+            out = call(obj.to_mask, method='exact')
+            if isinstance(out, Raised):
+                return out
+            ms = out if isinstance(out, list) else [out]
+            return [call(m.cutout, data[:13, :15]) for m in ms]
+        if what.endswith('_small'):
+            data = data[:13, :15]
         if what.startswith(('do_photometry', 'area_overlap')):
             # calls with different masks / methods on the same object: a
             # later call must not see what an earlier one did to any cache
